@@ -7,6 +7,7 @@ import re
 
 from ..cfg import CFG
 from ..dtable import UNKNOWN, run_paths
+from ..flow import reaching_defs
 from ..dtable import _val as dval
 from ..normal import inline_temps
 from ..pattern import find, guards_of, pmatch
@@ -333,6 +334,43 @@ def check_bond_convention(prog, rep):
         raise AnalysisError('BOND-convention: uses of H_bond in expectation_value not found')
 
 
+def check_sign_with_term(prog, rep):
+    """order_combine_term returns the re-ordered term together with the fermionic sign of the
+    re-ordering. Whoever adds something built from the re-ordered term (directly or as its h.c.)
+    must use a strength that contains that sign."""
+    m = prog.module(MODEL)
+    n = 0
+    for q, f in m.functions.items():
+        un = [(st, e) for st in stmts_of(f)
+              for e in [pmatch('$t, $sg = order_combine_term($$a, $$b)', st)] if e]
+        if not un:
+            continue
+        t_, sg = un[0][1]['$t'], un[0][1]['$sg']
+        defs = local_defs(f)
+        for c in body_nodes(f):
+            if not (isinstance(c, ast.Call) and call_name(c) in TERM_ADDERS | {
+                    'coupling_term_handle_JW', 'multi_coupling_term_handle_JW'} and c.args):
+                continue
+            if c.lineno < un[0][0].lineno:
+                continue
+            others = list(c.args[1:]) + [k.value for k in c.keywords]
+            uses_term = any(t_ in names_in(a) or depends_on(f, a, [t_], defs) for a in others)
+            if not uses_term or isinstance(c.args[0], ast.Starred):
+                continue
+            n += 1
+            dep = depends_on(f, c.args[0], [sg], defs)
+            rep.instance('SIGN-with-term', {'function': q, 'call': unparse(c)[:70],
+                                            'strength_contains_sign': dep})
+            if not dep:
+                rep.violation('SIGN-with-term', m, q, 'sign-dropped:' + unparse(c.args[0])[:30],
+                              '`%s` adds a term built from the re-ordered `%s` with the strength '
+                              '`%s`, which does not contain the re-ordering sign `%s`: odd '
+                              'permutations of fermionic operators get the wrong sign' %
+                              (unparse(c)[:80], t_, unparse(c.args[0]), sg), c.lineno)
+    if n < 3:
+        raise AnalysisError('SIGN-with-term: uses of order_combine_term in model.py not found')
+
+
 def check_onsite_weights(prog, rep):
     """When on-site terms are folded into nearest-neighbour bond operators every site's term must
     enter with total weight 1: 1/2 on each of its two bonds, except the end sites of a FINITE
@@ -553,6 +591,7 @@ def run(prog, rep, tier):
     check_term_classes(prog, rep)
     check_jw_in_model(prog, rep)
     check_onsite_weights(prog, rep)
+    check_sign_with_term(prog, rep)
     check_bond_convention(prog, rep)
     check_perm_undo(prog, rep)
     rep.floor('PLUSHC-guard', 9)
